@@ -17,6 +17,7 @@ import (
 	"reflect"
 	"sort"
 	"sync"
+	"syscall"
 	"time"
 	"unsafe"
 
@@ -131,6 +132,7 @@ type App struct {
 type FakeRPC struct {
 	mu    sync.Mutex
 	known map[string]bool
+	asked map[string]bool
 	ln    net.Listener
 	srv   *http.Server
 	Addr  string
@@ -155,12 +157,24 @@ func NewFakeRPC() (*FakeRPC, error) {
 	if err != nil {
 		return nil, err
 	}
-	f := &FakeRPC{known: map[string]bool{}, ln: ln, Addr: "unix://" + sock, Dir: dir}
+	f := &FakeRPC{known: map[string]bool{}, asked: map[string]bool{}, ln: ln, Addr: "unix://" + sock, Dir: dir}
 	mux := http.NewServeMux()
 	mux.HandleFunc("/", f.handle)
 	f.srv = &http.Server{Handler: mux}
+	// the ante handler builds a new RPC client (and connection) for every transaction and never
+	// closes it: close each connection after its response so descriptors do not pile up
+	f.srv.SetKeepAlivesEnabled(false)
+	raiseNoFile()
 	go f.srv.Serve(ln)
 	return f, nil
+}
+
+func raiseNoFile() {
+	var lim syscall.Rlimit
+	if err := syscall.Getrlimit(syscall.RLIMIT_NOFILE, &lim); err == nil && lim.Cur < lim.Max {
+		lim.Cur = lim.Max
+		_ = syscall.Setrlimit(syscall.RLIMIT_NOFILE, &lim)
+	}
 }
 
 func (f *FakeRPC) handle(w http.ResponseWriter, r *http.Request) {
@@ -173,6 +187,7 @@ func (f *FakeRPC) handle(w http.ResponseWriter, r *http.Request) {
 	_ = json.Unmarshal(req.Params, &p)
 	f.mu.Lock()
 	f.Calls++
+	f.asked[string(p.Hash)] = true
 	found := f.known[string(p.Hash)]
 	f.mu.Unlock()
 	w.Header().Set("Content-Type", "application/json")
@@ -192,6 +207,14 @@ func (f *FakeRPC) Add(hash []byte) {
 	f.mu.Lock()
 	f.known[string(hash)] = true
 	f.mu.Unlock()
+}
+
+// WasAsked tells whether the ante handler's lookup for this hash reached the server (a lookup
+// that fails for transport reasons makes the real code treat the transaction as new).
+func (f *FakeRPC) WasAsked(hash []byte) bool {
+	f.mu.Lock()
+	defer f.mu.Unlock()
+	return f.asked[string(hash)]
 }
 
 func (f *FakeRPC) Close() {
@@ -548,6 +571,30 @@ func (a *App) Digest() string {
 		h.Write([]byte{0xff, 0xfe})
 	}
 	return hex.EncodeToString(h.Sum(nil))
+}
+
+// Digests returns the digest of the auth store and the digest of all other IAVL stores.
+func (a *App) Digests() (string, string) {
+	ctx := a.Ctx()
+	one := func(keys ...sdk.StoreKey) string {
+		h := sha256.New()
+		for _, k := range keys {
+			it := ctx.KVStore(k).Iterator(nil, nil)
+			for ; it.Valid(); it.Next() {
+				var l [8]byte
+				binary.BigEndian.PutUint64(l[:], uint64(len(it.Key())))
+				h.Write(l[:])
+				h.Write(it.Key())
+				binary.BigEndian.PutUint64(l[:], uint64(len(it.Value())))
+				h.Write(l[:])
+				h.Write(it.Value())
+			}
+			it.Close()
+			h.Write([]byte{0xff, 0xfe})
+		}
+		return hex.EncodeToString(h.Sum(nil))[:24]
+	}
+	return one(a.KeyAuth), one(a.KeyMain, a.KeyPos, sdk.ParamsKey)
 }
 
 // Dump returns store name -> hex(key) -> hex(value) (used in violation reports).
